@@ -6,6 +6,9 @@
 -/
 import ClairModel.Proofs.Locks
 
+-- every variable of a property statement is bound explicitly: a misspelt name is an error, not a new variable
+set_option autoImplicit false
+
 namespace ClairModel.Props.C20
 open ClairModel ClairModel.Locks
 
